@@ -9,7 +9,7 @@ use crate::model::Model;
 use crate::props::lsp_tiers::parse_cli_list;
 use crate::runner::*;
 use crate::spec::*;
-use proptest::strategy::Strategy;
+use proptest::prelude::*;
 use pytest_language_server::FixtureDatabase;
 use serde_json::Value;
 use std::collections::{BTreeMap, BTreeSet};
@@ -31,6 +31,21 @@ pub fn cfg() -> GenCfg {
 #[derive(Clone, Debug, serde::Serialize, serde::Deserialize)]
 pub struct Case {
     pub ws: WorkspaceSpec,
+    /// workspace plugin n (bit n mod 3) is an editable install whose sources live OUTSIDE the workspace
+    #[serde(default)]
+    pub outside_mask: u8,
+}
+
+fn effective_ws(c: &Case) -> WorkspaceSpec {
+    let mut ws = c.ws.clone();
+    for f in ws.files.iter_mut() {
+        if let FileKind::Plugin(n) = f.loc.kind {
+            if (c.outside_mask >> (n % 3)) & 1 == 1 {
+                f.loc.kind = FileKind::ThirdParty(10 + n);
+            }
+        }
+    }
+    ws
 }
 
 fn parse_unused_text(out: &str) -> Option<Vec<(String, String)>> {
@@ -49,7 +64,7 @@ fn parse_unused_text(out: &str) -> Option<Vec<(String, String)>> {
 }
 
 pub fn check_case(c: &Case, info: &mut CaseInfo) -> Outcome {
-    let ws = &c.ws;
+    let ws = &effective_ws(c);
     let m = Model::new(ws);
     let disk = match DiskWs::create(ws, "", None) {
         Ok(d) => d,
@@ -57,7 +72,16 @@ pub fn check_case(c: &Case, info: &mut CaseInfo) -> Outcome {
     };
     let db = FixtureDatabase::new();
     db.scan_workspace(Path::new(&disk.root));
-    let rel = |p: &Path| -> String { p.to_string_lossy().strip_prefix(&format!("{}/", disk.root)).unwrap_or(&p.to_string_lossy()).to_string() };
+    // the CLI shows the files of an editable install that lives outside the workspace under a virtual
+    // site-packages path of the workspace's virtualenv
+    let outside = format!("{}/outside/", disk.base);
+    let rel = |p: &Path| -> String {
+        let s = p.to_string_lossy().to_string();
+        if let Some(r) = s.strip_prefix(&outside) {
+            return format!(".venv/lib/python3.11/site-packages/{}", r);
+        }
+        s.strip_prefix(&format!("{}/", disk.root)).unwrap_or(&s).to_string()
+    };
     let sens = crate::props::c08::order_sensitive_names(&m);
     let any_sens = !sens.is_empty();
     let defs = crate::snapshot::all_defs(&db);
@@ -205,7 +229,7 @@ pub fn check_case(c: &Case, info: &mut CaseInfo) -> Outcome {
 }
 
 pub fn run(ctx: &Ctx) {
-    ctx.run_prop_shrink("cli", ctx.tier.pick(150, 5_000), 8, 200, || workspace(cfg()).prop_map(|ws| Case { ws }), |c, info| check_case(c, info));
+    ctx.run_prop_shrink("cli", ctx.tier.pick(500, 15_000), 8, 200, || (workspace(cfg()), prop_oneof![2 => Just(0u8), 1 => 1u8..8]).prop_map(|(ws, outside_mask)| Case { ws, outside_mask }), |c, info| check_case(c, info));
 }
 
 pub fn judge(_ctx: &Ctx, sub: &str, case: &Value) -> Option<Outcome> {
